@@ -19,7 +19,7 @@ THEOREMS = [
     "dt_from_offset_ticks", "dt_pickle_roundtrip", "cvi_layout", "record_bytes", "record_roundtrip",
     # tier T29: the element chains at every store / load site of the two array classes (Gen/BtElemSites)
     "store_chain_eq_model", "gen_store_sites_eq_model", "dt_from_tuple_eq", "load_chain_eq_model", "gen_load_sites_eq_model",
-    "gen_array_element_roundtrip", "gen_sites_cover", "store_chain_refusals",
+    "gen_array_element_roundtrip", "gen_sites_cover", "store_chain_refusals", "load_store_all", "gen_array_pickle_roundtrip",
 ]
 RULE = ("tick values from the 128-bit edge lattice (powers of two ±2, int64/uint64 limits, fractions at decimal "
         "boundaries, out-of-range integers) plus seeded random values; each value goes through every entry path "
